@@ -190,6 +190,11 @@ instance (priority := high) instInhabitedIntPanic : Inhabited Int := ⟨panicInt
 /-- value standing for a Rust panic in value position (see `unwrapO`) -/
 @[inline] def panicV {β : Type} [Inhabited β] : β := default
 
+/-- `Iterator::next` on a list-modelled iterator -/
+def listNext {β : Type} : List β → Option β × List β
+  | [] => (none, [])
+  | x :: t => (some x, t)
+
 def listSet {β : Type} (l : List β) (i : Int) (v : β) : List β :=
   if i < 0 then l else l.set i.toNat v
 
